@@ -198,6 +198,115 @@ def _plain_copy(node):
     return new
 
 
+def _table_comprehensions(tree):
+    """A comprehension over a module-level literal table (a dict display
+    with constant keys walked by .items() / .keys() / itself, or a display
+    of tuples), without conditions, is the display it builds: ``{k:
+    getattr(o, k) or d for k, d in T.items()}`` is ``{'a': o.a or 0, ...}``.
+    ``getattr(o, '<identifier>')`` with two arguments is ``o.<identifier>``."""
+    tables = {}
+    counts = {}
+    for st in tree.body:
+        if isinstance(st, ast.Assign) and len(st.targets) == 1 and \
+                isinstance(st.targets[0], ast.Name):
+            nm = st.targets[0].id
+            counts[nm] = counts.get(nm, 0) + 1
+            v = st.value
+            if isinstance(v, ast.Dict) and v.keys and len(v.keys) <= 12 \
+                    and all(isinstance(k, ast.Constant) for k in v.keys) \
+                    and all(_pure(x) for x in v.values):
+                tables[nm] = ('dict', v)
+            elif isinstance(v, (ast.Tuple, ast.List)) and v.elts and len(
+                    v.elts) <= 12 and all(_pure(e) for e in v.elts):
+                tables[nm] = ('seq', v)
+    tables = {k: v for k, v in tables.items() if counts.get(k) == 1}
+    if not tables:
+        return
+
+    def rows_of(it, arity):
+        if isinstance(it, ast.Call) and isinstance(
+                it.func, ast.Attribute) and isinstance(
+                    it.func.value, ast.Name) and it.func.value.id in tables \
+                and not it.args and not it.keywords:
+            kind, v = tables[it.func.value.id]
+            if kind != 'dict':
+                return None
+            if it.func.attr == 'items' and arity == 2:
+                return [[k, x] for k, x in zip(v.keys, v.values)]
+            if it.func.attr == 'keys' and arity == 1:
+                return [[k] for k in v.keys]
+            if it.func.attr == 'values' and arity == 1:
+                return [[x] for x in v.values]
+            return None
+        if isinstance(it, ast.Name) and it.id in tables:
+            kind, v = tables[it.id]
+            if kind == 'dict' and arity == 1:
+                return [[k] for k in v.keys]
+            if kind == 'seq':
+                if arity == 1:
+                    return [[e] for e in v.elts]
+                if all(isinstance(e, ast.Tuple) and len(e.elts) == arity
+                       for e in v.elts):
+                    return [list(e.elts) for e in v.elts]
+        return None
+
+    class T(ast.NodeTransformer):
+        def _expand(self, node):
+            self.generic_visit(node)
+            if len(node.generators) != 1:
+                return node
+            g = node.generators[0]
+            if g.ifs or g.is_async:
+                return node
+            if isinstance(g.target, ast.Name):
+                names = [g.target.id]
+            elif isinstance(g.target, ast.Tuple) and all(
+                    isinstance(t, ast.Name) for t in g.target.elts):
+                names = [t.id for t in g.target.elts]
+            else:
+                return node
+            rows = rows_of(g.iter, len(names))
+            if rows is None:
+                return node
+            outs = []
+            for r in rows:
+                sub = _SubstNames(dict(zip(names, r)))
+                if isinstance(node, ast.DictComp):
+                    outs.append((_Getattr().visit(sub.visit(_plain_copy(
+                        node.key))), _Getattr().visit(sub.visit(_plain_copy(
+                            node.value)))))
+                else:
+                    outs.append(_Getattr().visit(sub.visit(_plain_copy(
+                        node.elt))))
+            if isinstance(node, ast.DictComp):
+                new = ast.Dict(keys=[k for k, _v in outs],
+                               values=[v for _k, v in outs])
+            elif isinstance(node, ast.ListComp):
+                new = ast.List(elts=outs, ctx=ast.Load())
+            elif isinstance(node, ast.SetComp):
+                new = ast.Set(elts=outs)
+            else:
+                return node
+            return ast.fix_missing_locations(ast.copy_location(new, node))
+
+        visit_DictComp = visit_ListComp = visit_SetComp = _expand
+    T().visit(tree)
+
+
+class _Getattr(ast.NodeTransformer):
+    def visit_Call(self, node):
+        self.generic_visit(node)
+        if isinstance(node.func, ast.Name) and node.func.id == 'getattr' \
+                and len(node.args) == 2 and not node.keywords and \
+                isinstance(node.args[1], ast.Constant) and isinstance(
+                    node.args[1].value, str) and \
+                node.args[1].value.isidentifier():
+            return ast.copy_location(ast.Attribute(
+                value=node.args[0], attr=node.args[1].value,
+                ctx=ast.Load()), node)
+        return node
+
+
 def _unroll_table_loops(tree):
     """``for a, b in TABLE: if t(a): body(b) [break]`` over a module-level
     constant table of literal tuples is the if / elif chain it abbreviates:
@@ -544,7 +653,54 @@ def _conditional_expressions(tree):
 
 
 def _star_dict_calls(tree):
-    """``f(**{'a': x, 'b': y})`` is ``f(a=x, b=y)``."""
+    """``f(**{'a': x, 'b': y})`` is ``f(a=x, b=y)``; so is ``d = {'a': x,
+    'b': y}`` followed by ``f(**d)`` when d is bound once and read only
+    there."""
+    # single-use dict locals, per function
+    for fn in ast.walk(tree):
+        if not isinstance(fn, (ast.FunctionDef, ast.AsyncFunctionDef)):
+            continue
+        stores, loads = {}, {}
+        for n in ast.walk(fn):
+            if isinstance(n, ast.Name):
+                d = stores if isinstance(n.ctx, (ast.Store, ast.Del)) \
+                    else loads
+                d[n.id] = d.get(n.id, 0) + 1
+        for node in ast.walk(fn):
+            for fld in ('body', 'orelse', 'finalbody'):
+                blk = getattr(node, fld, None)
+                if not (isinstance(blk, list) and blk and isinstance(
+                        blk[0], ast.stmt)):
+                    continue
+                for i, st in enumerate(list(blk)):
+                    if not (isinstance(st, ast.Assign) and len(
+                            st.targets) == 1 and isinstance(
+                                st.targets[0], ast.Name) and isinstance(
+                                    st.value, ast.Dict)):
+                        continue
+                    nm = st.targets[0].id
+                    if stores.get(nm) != 1 or loads.get(nm) != 1:
+                        continue
+                    # the one read: a ** argument of a call in the next
+                    # statement of the same block
+                    j = blk.index(st)
+                    if j + 1 >= len(blk):
+                        continue
+                    nxt = blk[j + 1]
+                    hit = None
+                    for c in ast.walk(nxt):
+                        if isinstance(c, ast.Call):
+                            for k in c.keywords:
+                                if k.arg is None and isinstance(
+                                        k.value, ast.Name) and \
+                                        k.value.id == nm:
+                                    hit = k
+                    if hit is None or isinstance(nxt, (
+                            ast.For, ast.While, ast.If, ast.Try, ast.With,
+                            ast.FunctionDef)):
+                        continue
+                    hit.value = st.value
+                    blk.remove(st)
     for n in ast.walk(tree):
         if not isinstance(n, ast.Call):
             continue
@@ -931,6 +1087,7 @@ def normalise(tree):
     4. in a loop body ``if c: continue`` + rest  ->  ``if not c: rest``
     Each step is semantics-preserving for any program."""
     _unroll_table_loops(tree)
+    _table_comprehensions(tree)
     _scope_blocks(tree)
     _plain_idioms(tree)
     _filtered_iteration(tree)
